@@ -2,7 +2,7 @@
 usage: seedstore.py <id> <PROP> <caught:yes|no|after-strengthening> "<needs>" "<detected-by rules>" """
 import json, os, shutil, subprocess, sys
 sid, prop, caught, needs, rules = sys.argv[1:6]
-src = f"/tmp/seed/{sid}.out"
+src = f"/tmp/seedout/{sid}"
 dst = f"/verif/seeded/{sid}"
 os.makedirs(dst, exist_ok=True)
 for f in ("patch.diff", "demo.py", "NOTES.md"):
@@ -10,7 +10,7 @@ for f in ("patch.diff", "demo.py", "NOTES.md"):
 head = subprocess.run(["git", "-C", "/repo", "rev-parse", "--short", "HEAD"], capture_output=True, text=True).stdout.strip()
 meta = {"id": sid, "property": prop, "breaks": open(os.path.join(src, "NOTES.md")).read().strip().split("\n\n")[0][:600],
         "needs_to_manifest": needs, "caught_by_check": caught, "violation_rules_reported": rules,
-        "what_was_run": [f"tools/seedcheck.sh /tmp/seed/{sid}.out {prop}  (scratch copy of /repo at {head}: demo on clean tree -> exit 0, patch applied, "
+        "what_was_run": [f"tools/seedcheck.sh /tmp/seedout/{sid} {prop}  (scratch copy of /repo at {head}: demo on clean tree -> exit 0, patch applied, "
                          f"demo -> exit 1, pinned suite via tools/baseline.sh -> 930/930 stable_pass, FSIM_REPO_SRC=<scratch>/src ./run {prop} --tier quick -> exit 1)"],
         "author": "independent sub-agent given only the property text and a scratch worktree", "repo_head": head}
 json.dump(meta, open(os.path.join(dst, "meta.json"), "w"), indent=1)
